@@ -428,19 +428,24 @@ class World:
         return e
 
     def impl_decrypt(self, blob, r):
-        """outcome of decrypting `blob` (bytes or armored str) as recipient r with the implementation"""
-        def go():
-            with warnings.catch_warnings():
-                warnings.simplefilter('ignore')
+        """outcome of decrypting `blob` (bytes or armored str) as recipient r with the implementation:
+        ('ok', canonical plaintext) | ('raise', exception name, 'parse' | 'decrypt')"""
+        with warnings.catch_warnings():
+            warnings.simplefilter('ignore')
+            try:
                 em = self.pgpy.PGPMessage.from_blob(blob)
+            except Exception as ex:
+                return ('raise', type(ex).__name__, 'parse')
+            try:
                 if r[0] == 'P':
                     d = em.decrypt(r[1])
                 else:
                     d = self.keys[r[1]].decrypt(em)
                     if d is em:
                         raise NotEncryptedReturned()
-                return canon_plain(d)
-        return outcome(go)
+                return ('ok', canon_plain(d))
+            except Exception as ex:
+                return ('raise', type(ex).__name__, 'decrypt')
 
     def model_decrypt(self, raw, r):
         if r[0] == 'P':
